@@ -46,6 +46,7 @@ def run_shard(spec, rep):
             feed_temperature=WITNESS["t"], composition=Composition(WITNESS["w"], "weight"), precision=WITNESS["precision"],
             permeate_temperature=WITNESS["tp"], first_component_permeance=Permeance(WITNESS["p"][0]),
             second_component_permeance=Permeance(WITNESS["p"][1])))
+    capped = []
     for index in range(spec["n"]):
         if only is not None and index != only:
             continue
@@ -75,6 +76,8 @@ def run_shard(spec, rep):
         case = dict(fc.describe(), index=index)
         rep.case(case, nontrivial=fc.mode != "V", cls=f"{fc.model}-{fc.mode}")
         _guarded(rep, case, "flux", lambda: fc.pv.calculate_partial_fluxes(**fc.kwargs()))
+        if fc.from_membrane and guards.S.last_evals >= 100000 and len(capped) < 2 and fc.precision > 1e-12:
+            capped.append(fc)  # a state at which the flux calculation ran into the library's bound: the models are started there below
         if index % 16 == 0:
             # the public helpers built on one flux calculation; they are entitled to exactly one
             if rep.n_violations >= 3:
@@ -122,6 +125,24 @@ def run_shard(spec, rep):
             fn = lambda: getattr(fc.pv, kind)(conditions=cond, number_of_steps=5, delta_hours=0.05, precision=fc.precision, calculation_type=fc.model)
         with guards.call_budget(12):  # at most 5 steps / 4 points, two flux calculations a step at the very most
             _guarded(rep, case, "model", fn)
+    # every consumer of the flux calculation at states where it is KNOWN not to converge (found above in this very shard)
+    for n_c, fc in enumerate(capped if only is None else []):
+        if rep.n_violations >= 3:
+            break
+        cond = Conditions(membrane_area=1.0, initial_feed_temperature=fc.t_feed, initial_feed_amount=100.0, initial_feed_composition=fc.comp,
+                          permeate_temperature=fc.tp, permeate_pressure=fc.pp)
+        consumers = [
+            ("ideal_diffusion_curve", lambda: fc.pv.ideal_diffusion_curve(fc.t_feed, [fc.comp], fc.tp, fc.pp, fc.precision, fc.model)),
+            ("ideal_isothermal_process", lambda: fc.pv.ideal_isothermal_process(conditions=cond, number_of_steps=1, delta_hours=0.01, precision=fc.precision, calculation_type=fc.model)),
+            ("ideal_non_isothermal_process", lambda: fc.pv.ideal_non_isothermal_process(conditions=cond, number_of_steps=1, delta_hours=0.01, precision=fc.precision, calculation_type=fc.model)),
+            ("calculate_permeate_composition", lambda: fc.pv.calculate_permeate_composition(fc.t_feed, fc.comp, fc.precision, fc.tp, fc.pp, fc.model)),
+        ]
+        for kind, fn in consumers:
+            case = dict(fc.describe(), index=f"capped-{n_c}", kind=kind)
+            rep.case(case, cls="at-a-non-convergent-state-" + kind)
+            with guards.call_budget(4):
+                _guarded(rep, case, "consumer_at_non_convergent_state", fn)
+    rep.count("non_convergent_states_handed_to_the_consumers", len(capped))
     for k, v in guards.eval_histogram().items():
         rep.count("evaluations_per_flux_calculation " + k, v)
 
